@@ -1211,7 +1211,7 @@ class ReferenceResolver:
                         RefRulePosition(
                             name=crossref.obj_name,
                             ref_pos_start=crossref.position,
-                            ref_pos_end=crossref.position + len(resolved.name),
+                            ref_pos_end=crossref.position + len(str(crossref.obj_name)),
                             def_file_name=get_model(resolved)._tx_filename,
                             def_pos_start=resolved._tx_position,
                             def_pos_end=resolved._tx_position_end,
